@@ -5,9 +5,9 @@ Proof:   lean/CprocVerif/Props/C14.lean: the model of utf.c / expr.c (decodechar
          (RFC 3629, UTF-16, C11 6.4.4.4 / 6.4.5 + documented C23 u8 rule), all inputs unbounded.
 Tie:     K-A  /repo/utf.c linked into harness/utf_h.c vs the model driver drv_c14 vs an independent Python
               oracle (CPython's strict UTF-8 / UTF-16 codecs): ALL code points 0..0x11FFFF (+ samples up to
-              2^32) through utf8enc/utf16enc, ALL 1- and 2-byte sequences, (thorough) ALL 3-byte sequences and
-              all 4-byte sequences with lead F4..F7 (code points up to 0x1FFFFF) through utf8dec; quick: a seeded
-              sample of 3-/4-byte blocks containing every boundary lead/continuation combination.
+              2^32) through utf8enc/utf16enc, ALL 1-, 2- and 3-byte sequences, (thorough) all 4-byte sequences
+              with lead F0..F7 and a continuation second byte (code points up to 0x1FFFFF) through utf8dec; quick: a
+              seeded sample of 4-byte blocks containing every boundary lead/continuation combination.
          K-B  generated literals through the freshly built cproc-qbe for all three -t targets, emitted data
               parsed into code units, compared with the model AND with an independent Python encoder;
               malformed literals must exit non-zero with a diagnostic.
@@ -156,32 +156,32 @@ def gen_ka_lines(ck):
     L.append("dec -")
     L.append("decblk - 1")
     L.append("decblk - 2")
+    # all 3-byte sequences (with the two lines above the tie is complete for sequences of <= 3 bytes)
+    for a in range(256):
+        L.append("decblk %02x 2" % a)
     if ck.quick:
-        # 3-byte: every boundary (lead, second) pair + random pairs, all third bytes
-        pairs = {(a, b) for a in LEADS for b in CONTS}
-        while len(pairs) < len(LEADS) * len(CONTS) + 300:
-            pairs.add((rng.randrange(256), rng.randrange(256)))
-        for a, b in sorted(pairs):
-            L.append("decblk %02x%02x 1" % (a, b))
         # 4-byte: boundary (lead, second, third) triples + random triples, all fourth bytes
         triples = {(a, b, c) for a in (0xef, 0xf0, 0xf1, 0xf3, 0xf4, 0xf5, 0xf7, 0xf8) for b in CONTS
                    for c in (0x00, 0x7f, 0x80, 0xbf, 0xc0)}
-        while len(triples) < 8 * len(CONTS) * 5 + 250:
+        while len(triples) < 8 * len(CONTS) * 5 + 400:
             triples.add((rng.randrange(0xe0, 0x100), rng.randrange(0x70, 0xd0), rng.randrange(0x70, 0xd0)))
         for t in sorted(triples):
             L.append("decblk %02x%02x%02x 1" % t)
-        # two full 64 Ki blocks: code points around U+10FFFF / U+110000 and a random 3-byte lead
-        L.append("decblk f48f 2")
-        L.append("decblk f490 2")
-        L.append("decblk %02x 2" % rng.randrange(0xe0, 0xf0))
+        # full 64 Ki blocks: code points around U+10FFFF / U+110000, the overlong/valid border F0 8F/90, a random one
+        for blk in ("f48f", "f490", "f08f", "f090", "%02x%02x" % (rng.randrange(0xf0, 0xf8), rng.randrange(0x80, 0xc0))):
+            L.append("decblk %s 2" % blk)
     else:
-        for a in range(256):
-            L.append("decblk %02x 2" % a)           # all 3-byte sequences
         for a in range(0xf0, 0xf8):                  # 4-byte: every code point 0x0 .. 0x1FFFFF incl. overlong forms
             for b in range(0x80, 0xc0):
                 L.append("decblk %02x%02x 2" % (a, b))
-        for a in (0xf0, 0xf4, 0xf7, 0xf8, 0xff):     # non-continuation second byte
+        for a in range(0xf0, 0x100):                 # non-continuation second byte: all third bytes
+            for b in list(range(0x00, 0x80)) + list(range(0xc0, 0x100)):
+                L.append("decblk %02x%02x 1" % (a, b))
+        for a in (0xf0, 0xf4, 0xf7, 0xf8, 0xff):     # ... and all third+fourth bytes for some
             for b in (0x00, 0x7f, 0xc0, 0xff):
+                L.append("decblk %02x%02x 2" % (a, b))
+        for a in (0xe0, 0xed, 0xef):                 # 3-byte leads followed by a fourth byte
+            for b in (0x80, 0x9f, 0xa0, 0xbf):
                 L.append("decblk %02x%02x 2" % (a, b))
     # limit handling
     for seq in ("41", "c3a9", "e282ac", "f09f9880", "c3", "e282", "f09f98", "80", "ff", "eda080", "f4908080"):
@@ -491,7 +491,7 @@ def gen_strings(ck):
     cases.append({"parts": [("", [("x", "100000041")])], "tag": "hexwrap"})
     cases.append({"parts": [("U", [("x", "100000041")])], "tag": "hexwrap"})
     # random mixtures in concatenations
-    nrand = 500 if ck.quick else 6000
+    nrand = 1500 if ck.quick else 20000
     for _ in range(nrand):
         ntok = rng.choice([1, 1, 2, 2, 3, 4])
         pre = rng.choice(PREFIXES)
@@ -1090,7 +1090,7 @@ def validate_oracle(ck, kb, str_cases, chr_cases):
 def run(ck):
     ck.cov["rule"] = (
         "K-A (utf.c vs model vs CPython codecs): utf8enc/utf16enc on EVERY value 0..0x11FFFF + blocks up to 2^32; "
-        "utf8dec on ALL 1- and 2-byte sequences, %s, limits 0..5; every harness call runs on exactly sized heap "
+        "utf8dec on ALL 1-, 2- and 3-byte sequences, %s, limits 0..5; every harness call runs on exactly sized heap "
         "blocks under ASan.  K-B (cproc-qbe x 3 targets vs model vs Python encoder): every prefix x octal 1..3 / hex "
         "1..8(+10) digits x following character (8,9,a,G,g,x,end,next token), all simple escapes, boundary and "
         "per-plane scalars, boundary escape values per element width, %d random concatenations (1..4 tokens, prefix "
@@ -1099,9 +1099,9 @@ def run(ck):
         "classes in strings/char constants/prefixed literals, bad escapes, NUL bytes, newline/EOF, multi-character "
         "constants.  distinct_nontrivial counts distinct K-A operations and distinct (kind, target, tag, prefix, "
         "shape, outcome) K-B classes."
-        % ("a seeded sample of 3-/4-byte blocks with every boundary lead/continuation combination" if ck.quick else
-           "ALL 3-byte sequences and all 4-byte sequences F0..F7 80..BF xx xx (code points up to 0x1FFFFF)",
-           500 if ck.quick else 6000, len(BAD_UTF8)))
+        % ("a seeded sample of 4-byte blocks with every boundary lead/continuation combination" if ck.quick else
+           "all 4-byte sequences F0..F7 80..BF xx xx (every code point up to 0x1FFFFF incl. overlong forms)",
+           1500 if ck.quick else 20000, len(BAD_UTF8)))
     import time
     t0 = time.time()
     ck.lean_build()
